@@ -48,22 +48,16 @@ def isSubset : Shape → Shape → Bool
   | .number true, other => (other.isNumber && other.isOptional) || isOneOfOptNumber other
   | .string true, other => (other.isString && other.isOptional) || isOneOfOptString other
   | .array t true, .array ty true => isSubset t ty
-  | .array t true, .oneOf vs o =>
-      setContains (.array t true) vs
-        || ((o || setContains .null vs) && anySuperset (.array t false) vs)
+  | .array t true, .oneOf vs o => anyNullOkSuperset (.array t false) (o || setContains .null vs) vs
   | .array _ true, _ => false
   | .tuple es true, .tuple os true => zipAllSubset es os && es.length == os.length
-  | .tuple es true, .oneOf vs o =>
-      setContains (.tuple es true) vs
-        || ((o || setContains .null vs) && anySuperset (.tuple es false) vs)
+  | .tuple es true, .oneOf vs o => anyNullOkSuperset (.tuple es false) (o || setContains .null vs) vs
   | .tuple es true, .array ty true => es.all (fun e => isSubset e ty)
   | .tuple _ true, _ => false
   | .object c true, .object oc true =>
       oc.all (fun kv => mapContainsKey kv.1 c || kv.2.isOptional || isOneOfNull kv.2)
         && c.all (fun kv => lookupSubset kv.1 kv.2 oc)
-  | .object c true, .oneOf vs o =>
-      anyObjectSuperset (.object c true) vs
-        || ((o || setContains .null vs) && anySuperset (.object c false) vs)
+  | .object c true, .oneOf vs o => anyNullOkSuperset (.object c false) (o || setContains .null vs) vs
   | .object _ true, _ => false
   | .oneOf vs true, .oneOf ws true =>
       setIsSubset vs ws || vs.all (fun v => anySuperset v ws)
@@ -102,6 +96,11 @@ termination_by structural m => m
 def anyObjectSuperset (s : Shape) : List Shape → Bool
   | [] => false
   | v :: l => (v.isObject && isSubset s v) || anyObjectSuperset s l
+termination_by structural l => l
+/-- `variants.iter().any(|var| (null_ok || var.is_optional()) && non_optional.is_subset(var))` -/
+def anyNullOkSuperset (s : Shape) (nullOk : Bool) : List Shape → Bool
+  | [] => false
+  | v :: l => ((nullOk || v.isOptional) && isSubset s v) || anyNullOkSuperset s nullOk l
 termination_by structural l => l
 /-- `var.iter().any(|v| variant.is_subset(v))` -/
 def anySuperset (s : Shape) : List Shape → Bool
